@@ -27,7 +27,12 @@ for d in sorted(glob.glob(ROOT+'/seeded/C*-*')):
     json.dump(v,open(d+'/verif.json','w'),indent=1)
     detected=[c for c,r in det.get(sid,{}).items() if r['exit']==1]
     missed=[c for c,r in det.get(sid,{}).items() if r['exit']!=1]
-    rows.append((sid, (meta.get('summary') or '')[:160].replace('|','/').replace('\n',' '), ', '.join(detected) or '-', ', '.join(missed) or '-'))
+    note=''
+    try: note=' **['+open(d+'/NOTE').read().strip()+']**'
+    except Exception: pass
+    v['note']=note
+    json.dump(v,open(d+'/verif.json','w'),indent=1)
+    rows.append((sid, (meta.get('summary') or '')[:160].replace('|','/').replace('\n',' ')+note, ', '.join(detected) or '-', ', '.join(missed) or '-'))
 out=['# Seeded changes (produced by fresh sub-agents from the property text only) and which checks catch them','',
      '| seed | change | detected by | run but not detected by |','|---|---|---|---|']
 for r in rows: out.append('| %s | %s | %s | %s |'%r)
